@@ -127,14 +127,25 @@ def tupleOf : PyVal → Option (List Atom)
   | .atom (.str cs) => some (cs.map fun c => .str [c])
   | .atom _ => none
 
-/-- Values outside the model's domain: an ndarray (or `bytes`) handed to a *list* attribute class
-    iterates over numpy scalars / sub-arrays / byte values, which `Atom` does not describe; a spox
-    `Type` handed to `AttrDtype` goes through numpy's dtype-like protocol. -/
+/-- Values outside the model's domain (the theorems `validate_spec` / `wrong_kind_typeerror` and the
+    constructor correspondence are about the rest):
+    * an ndarray, `bytes` or a nested sequence handed to a *list* attribute class iterates over numpy
+      scalars / sub-arrays / byte values, which `Atom` does not describe;
+    * for `AttrDtype` the value goes through `np.dtype(value)`, and three of numpy's dtype-like
+      grammars are not modelled: **strings / bytes** (type codes and names: `"f"`, `"i4"`, `"float32"`
+      are dtypes, `"foo"` is not), **sequences** (`(base, shape)` sub-array specifications —
+      `(None, None)` and `("i4", ())` *are* float64 / int32 — and structured field lists), and objects
+      with a **`.dtype` attribute** (a spox `Type`). What the model does cover for `AttrDtype`: dtype
+      objects and numpy scalar types (`npdtype`), `None`, numbers, arrays, other objects. -/
 def inDomain (c : Cls) (v : PyVal) : Bool :=
-  match v with
-  | .atom (.ndarray _) | .atom .badarray | .atom .sequence | .atom (.bytes _) => !iterable c
-  | .atom .typ => c != .dtype     -- numpy takes any object with a `.dtype` attribute (a spox Tensor!) as dtype-like
-  | _ => true
+  if c == .dtype then
+    match v with
+    | .atom (.str _) | .atom (.bytes _) | .atom .sequence | .atom .typ | .seq _ => false
+    | _ => true
+  else
+    match v with
+    | .atom (.ndarray _) | .atom .badarray | .atom .sequence | .atom (.bytes _) => !iterable c
+    | _ => true
 
 /-- The stored `_value` and the `AttributeProto`, or the class of the exception. -/
 abbrev Outcome := Except Err (PyVal × AProto)
